@@ -174,16 +174,33 @@ func TestVerifC05(t *testing.T) {
 		run.Finish(true, "replay", "replay")
 		return
 	}
-	sizes := []uint64{1, 4095, 4096, 4097, 3 * 4096}
-	starts := []uint64{0, 0x10}
 	type shape struct {
 		off, size uint64
 		flags     uint32
 	}
+	// start offsets inside the page x sizes that make the section end just before / exactly at / one or two bytes
+	// after a page boundary, over one to three pages (plus the one-byte section)
+	starts := []uint64{0, 1, 0x10, 0x800, 0xff0, 0xfff}
 	var shapes []shape
-	for _, sz := range sizes {
-		for _, st := range starts {
+	for _, st := range starts {
+		seen := map[uint64]bool{}
+		sizes := []uint64{1, 2}
+		for k := uint64(1); k <= 3; k++ {
+			for _, e := range []int64{-1, 0, 1, 2} {
+				if sz := int64(k*4096) - int64(st) + e; sz > 0 {
+					sizes = append(sizes, uint64(sz))
+				}
+			}
+		}
+		for _, sz := range sizes {
+			if seen[sz] {
+				continue
+			}
+			seen[sz] = true
 			for fl := uint32(0); fl < 8; fl++ {
+				if !run.Thorough() && st != 0 && st != 0x10 && fl != 2 && fl != 5 && fl != 7 {
+					continue // quick: all eight flag sets only on the two common start offsets
+				}
 				shapes = append(shapes, shape{st, sz, fl})
 			}
 		}
@@ -209,7 +226,7 @@ func TestVerifC05(t *testing.T) {
 	// pairs: full product of shapes on two bases (thorough), a fixed 1-in-3 sub-lattice in quick
 	for i, a := range shapes {
 		for j, b := range shapes {
-			if !run.Thorough() && (i+2*j)%3 != 0 {
+			if !run.Thorough() && (i+2*j)%23 != 0 {
 				continue
 			}
 			one(vf05Case{Secs: []vf05Sec{{bases[0] + a.off, a.size, a.flags}, {bases[1] + b.off, b.size, b.flags}}, Rsv: 1, KOff: vf05KOff})
@@ -264,6 +281,6 @@ func TestVerifC05(t *testing.T) {
 			one(vf05Case{Secs: []vf05Sec{{koff + 0x200000 + sh.off, sh.size, sh.flags}, {koff - 0x100000 + 0x10, 100, 7}}, Rsv: 1, KOff: koff})
 		}
 	}
-	run.Finish(true, "every single section over 80 shapes (size {1,4095,4096,4097,3 pages} x start {aligned,+0x10} x all 8 W/A/X flag sets) x 5 bases (below / at / above the kernel offset, second P3 entry) x reservations {0,1,3}; section pairs (full 80x80 product in thorough, a fixed third in quick); adjacent-page triples; allocation failure at each of the first 14 allocations of 3 configurations (thorough: at each of the first 8 allocations of every single-section shape; 27k three-section sets; sections of 16/511/512/513 pages); 3 kernel offsets",
+	run.Finish(true, "every single section over the shape set (start offset {0,1,0x10,0x800,0xff0,0xfff} x sizes ending one byte before / at / one / two bytes after a page boundary over 1-3 pages x W/A/X flag sets) x 5 bases (below / at / above the kernel offset, second P3 entry) x reservations {0,1,3}; section pairs (full product in thorough, a fixed 1-in-23 sub-lattice in quick); adjacent-page triples; allocation failure at each of the first 14 allocations of 3 configurations (thorough: at each of the first 8 allocations of every single-section shape; 27k three-section sets; sections of 16/511/512/513 pages); 3 kernel offsets",
 		"distinct by (mapped pages, NX pages, RW pages, reservations, sections) outcome class")
 }
